@@ -386,6 +386,12 @@ def c08(v):
         if T is None:
             continue
         dl = b + T
+        if v.sc.get("busy"):
+            # job steps keep the loop busy: "at that instant" is the first instant, from the expiry on, at which the
+            # scheduler regains control (its main wait returns); it cannot interrupt a step that does not await
+            back = [e[0] for e in v.log if e[2] == "wret" and e[3] == s and len(e) > 4 and e[4] == "main" and e[0] >= dl]
+            if back:
+                dl = min(back)
         causes = exit_cause_positions(v, s)
         before = [c for c in causes if c[1] < dl]
         at = [c for c in causes if c[1] == dl]
@@ -441,6 +447,13 @@ def c08(v):
                 V.append("C08 %s must return False at expiry, got %s" % (s, f[2:]))
             if s in diag and diag[s][0] is False:
                 V.append("C08 failed_time_out() of %s is False after its timeout expired" % s)
+        if not at and ended[2] == "rcancel" and v.children[s] and s in diag and diag[s][0] is False:
+            # its timeout expired strictly before anything else ended its run, and it was cancelled only afterwards,
+            # while it was cleaning up: the cause of its end is still the timeout
+            cancelled_at = v.cancel.get(s)
+            if cancelled_at is not None and cancelled_at[1] > dl:
+                V.append("C08 failed_time_out() of %s is False although its timeout expired at t=%d (it was cancelled later, "
+                         "at t=%d, while cleaning up)" % (s, dl, cancelled_at[1]))
     return V
 
 
